@@ -26,6 +26,7 @@ META = {
             'Format strings with literal text, escapes, several fields and cycling values are covered for numbers that '
             'fit their fields and literal characters a-z ( ) : = only.',
 }
+META['text'] += ' Every numeric field is printed twice from the same variable and both lines must be the same text (formatting must not change the variable).'
 
 PCT = 37
 
